@@ -71,6 +71,27 @@ ExportAll ==
   prog # <<>> =>
     Emit(Cat([i \in DOMAIN Combos |-> ToJson(Record(Combos[i][1], Combos[i][2])) \o "\n"]))
 
+\* C16: the default-policy expectation plus whether the render touches an
+\* undefined at all (touch mode), for the three-policy comparison in the harness
+ExportUndef ==
+  prog # <<>> =>
+    LET lines == [i \in DOMAIN Combos |->
+                    LET rec == Record(Combos[i][1], Combos[i][2])
+                        tch == Expect(Combos[i][1], [Combos[i][2] EXCEPT !.undef = "touch"]) IN
+                    IF rec.expect.err = "UNSPEC" \/ tch.err = "UNSPEC" THEN ""
+                    ELSE ToJson([rec EXCEPT !.expect = [ok |-> rec.expect.ok, err |-> rec.expect.err, out |-> rec.expect.out,
+                                                        touched |-> (tch.err = "UndefinedError")]]) \o "\n"]
+        text == Cat(lines)
+    IN text = "" \/ Emit(text)
+
+\* C16 on the reference: a render that touches no undefined is the same under
+\* every policy
+PolicyIrrelevantWithoutTouch ==
+  \A d \in DataSets, c \in Cfgs :
+     LET tch == Expect(d, [c EXCEPT !.undef = "touch"]) IN
+     tch.err # "UndefinedError" =>
+        \A pol \in {"default", "strict", "falsy"} : Expect(d, [c EXCEPT !.undef = pol]) = tch
+
 \* inputs only (no expectation is computed)
 ExportInputs ==
   prog # <<>> =>
